@@ -57,7 +57,7 @@ Value& STRPOSExpression::value(Context & ctx) const
         break;
       case Type::NUMERIC:
         if (!a2.isNull())
-          s = Integer(*a2.numeric());
+          s = Value::toInteger(*a2.numeric());
         break;
       default:
         throw RuntimeError(EXC_RT_FUNC_ARG_TYPE_S, KEYWORDS[oper]);
